@@ -52,6 +52,9 @@ PEERS = [
     ('bk', 'x', '10.0.0.4', 9004, 13, 14, False, 1),
     # a device named outside ASCII: header fields of more bytes than characters (padding counts characters, the cipher bytes)
     ('z\u00fc', 'k\u00df\u20ac', '10.0.0.5', 9005, 33, 34, False, 0),
+    # a device whose name and key contain white space that is not the ASCII space (ideographic space, tab, no-break space:
+    # BoboDevice refuses ' ' only): the header fields are separated by ' ' and by nothing else
+    ('w\u3000w', 'k\tw\u00a0x', '10.0.0.6', 9006, 21, 22, False, 0),
 ]
 
 
@@ -430,6 +433,9 @@ def valid_plaintexts():
     out.append(('ping_utf8', 'z\u00fc k\u00df\u20ac 1 0 {}', 'z\u00fc', 1, 0, '{}'))
     js = payload_json(1, 2, 7)
     out.append(('sync_utf8', 'z\u00fc k\u00df\u20ac 0 0 ' + js, 'z\u00fc', 0, 0, js))
+    out.append(('ping_ws', 'w\u3000w k\tw\u00a0x 1 1 {}', 'w\u3000w', 1, 1, '{}'))
+    js = payload_json(1, 1, 3)
+    out.append(('sync_ws', 'w\u3000w k\tw\u00a0x 0 0 ' + js, 'w\u3000w', 0, 0, js))
     return out
 
 
@@ -453,7 +459,7 @@ def deliver_case(kind, recv_bytes, msg, m, cuts, rng, addr=None):
     name, pt, urn, ty, fl, js = msg
     script = cut(m, cuts)
     n = expected_reads(script, recv_bytes)
-    addr = addr or {'b': '10.0.0.2', 'c': '10.0.0.3', 'z\u00fc': '10.0.0.5'}[urn]
+    addr = addr or {p[0]: p[2] for p in PEERS}[urn]
     conn = mk_conn(script, calm_clock(rng, n + 1), addr,
                    expect={'kind': 'deliver', 'urn': urn, 'type': ty, 'flags': fl, 'json': js, 'reads': n, 'len': len(m), 'cuts': list(cuts)})
     return {'kind': kind, 'recv_bytes': recv_bytes, 'queue_cap': 0, 'msg': name, 'len': len(m), 'cuts': list(cuts),
